@@ -35,6 +35,30 @@ class Bench:
     sv.default_pythia_service = conc.PythiaProxy(sv.default_pythia_service)
     self.saved = None
     self.prefix_concrete = []
+    self._sql_points()
+
+  def _sql_points(self):
+    """SQL backends: every statement, commit and rollback on the shared connection is a pre-emption point
+    too (finer than a datastore operation: a rollback or commit issued outside the datastore's own lock
+    interleaves with another thread's statements)."""
+    if self.cfg['backend'] == 'ram':
+      return
+    try:
+      from simkit import crash  # pylint: disable=g-import-not-at-top
+      from sqlalchemy import event  # pylint: disable=g-import-not-at-top
+      engine = crash.find_engine(self.real_ds)
+    except Exception:  # pylint: disable=broad-except
+      return
+
+    def point(tag):
+      def fn(*a, **k):
+        s = conc._ACTIVE[0]  # pylint: disable=protected-access
+        if s is not None and s.cur is not None:
+          s.yield_('sql.' + tag)
+      return fn
+
+    for name, tag in (('before_cursor_execute', 'stmt'), ('commit', 'commit'), ('rollback', 'rollback')):
+      event.listen(engine, name, point(tag))
 
   def save(self):
     self.saved = None
@@ -89,6 +113,7 @@ class Bench:
     self.real_ds = sv.datastore
     sv.datastore = conc.DSProxy(self.real_ds)
     sv.default_pythia_service = conc.PythiaProxy(sv.default_pythia_service)
+    self._sql_points()
     for c in self.prefix_concrete:
       O.execute(sv, c, self.cfg)
 
@@ -250,6 +275,24 @@ class C04(runner.Check):
           op[1]['n'] = rng.choice([1, 2, 3])
         batch.append(op)
       rng.shuffle(batch)
+    if 0.24 <= r < 0.30:
+      # a failing call (metadata update naming a missing trial, delete of a missing study) next to
+      # writes of other calls, on SQL: whatever the failing call undoes must be its own work only
+      backend = cfg['backend'] = 'sqlmem'
+      s0, s1 = {'o': 0, 'd': 0}, {'o': 0, 'd': 1}
+      prefix = prefix + [['CreateStudy', {'o': 0, 'd': 1, 'state': 'ACTIVE'}],
+                         ['SuggestTrials', {'study': s1, 'n': 2, 'worker': 1}]]
+      failing = rng.choice([
+          ['UpdateMetadata', {'study': s0, 'items': [{'trial': {'pref': 'missing', 'i': 0}, 'ns': 0, 'key': 0, 'value': ['S', 'v']},
+                                                     {'trial': None, 'ns': 0, 'key': 1, 'value': ['S', 'w']}]}],
+          ['DeleteStudy', {'study': {'o': 0, 'd': 3}}]])
+      other = rng.choice([
+          ['CompleteTrial', {'study': s1, 'trial': {'pref': 'active', 'i': 0}, 'ckind': 'final', 'v': 1, 'w': 1}],
+          ['AddTrialMeasurement', {'study': s1, 'trial': {'pref': 'active', 'i': 0}, 'v': 1, 'w': 1, 'step': 1}],
+          ['SuggestTrials', {'study': s0, 'n': 1, 'worker': 2}],
+          ['CreateTrial', {'study': s1, 'x': 3, 'tkind': 'plain'}],
+          ['UpdateMetadata', {'study': s1, 'items': [{'trial': None, 'ns': 1, 'key': 2, 'value': ['S', 'x']}]}]])
+      batch = [failing, other] + ([rng.choice([other, failing])] if nb == 3 else [])
     ns = 20 if tier == 'quick' else 60
     if backend != 'ram':
       ns = max(4, ns // 4)
